@@ -140,6 +140,9 @@ DevSig(d, e) ==
     [] d = "Dev_C05_NegMin" -> e.op = "neg" /\ e.outcome = "value" /\ e.before.qt = "qint8" /\ IsQK(e.after.kind)
                                /\ <<-1, 128>> \in {e.before.codes[i] : i \in 1..Len(e.before.codes)}
                                /\ WellFormedProj(e.after, e)
+                               \* ... and ONLY the elements holding that code are wrong
+                               /\ Len(e.dq) = Len(e.twin) /\ Len(e.before.codes) = Len(e.dq)
+                               /\ \A i \in 1..Len(e.dq) : (e.before.codes[i] # <<-1, 128>>) => e.dq[i] = e.twin[i]
     [] d = "Dev_C06_SplitStaleSize" -> e.op = "split" /\ e.outcome = "value" /\ IsQK(e.after.kind) /\ e.after.shape = e.before.shape
     \* torch._int_mm on weights.t() of shape (1, N), N > 1 (C07 finding reached through a program): qint8 x qint8, one input feature
     [] d = "Dev_C07_IntMMK1" -> e.op = "linear" /\ e.outcome = "value" /\ e.kdim = 1 /\ Judge = "C05"
